@@ -5,10 +5,12 @@ import (
 	"encoding/json"
 	"fmt"
 	"reflect"
+	"runtime"
 	"sync"
 
 	pf "github.com/weedbox/pokerface"
 	"github.com/weedbox/pokerface/table"
+	"github.com/weedbox/pokerface/verifshim/vrt"
 
 	"verif/internal/explore"
 )
@@ -86,7 +88,12 @@ type stepObs struct {
 	jA, jB, jC       []byte
 	keyA             []byte
 	inputChanged     string
+	orders           int
+	orderDiff        string
 }
+
+// mapDev is the deviation bound for map iteration orders inside one operation (set per tier).
+var mapDev = 1
 
 // c07Step performs op three ways from the state reached by hist.
 func c07Step(cfg *Config, hist []Op, op Op) (*stepObs, error) {
@@ -104,6 +111,22 @@ func c07Step(cfg *Config, hist []Op, op Op) (*stepObs, error) {
 	gb := pf.NewGameFromState(fromJSON(j0))
 	o.errB, o.pB = Apply(gb, op)
 	o.jB = normJSON(gb.GetState())
+	// (b') the same operation under every map iteration order with at most mapDev non-default
+	// choices: "the same deck and the same operations always lead to the same state"
+	if mapDev > 0 {
+		explore.Deviations(mapDev, 0, func(ch *vrt.Chooser) {
+			gd := pf.NewGameFromState(fromJSON(j0))
+			var errD error
+			var pD string
+			explore.WithChooser(ch, func() { errD, pD = Apply(gd, op) })
+			o.orders++
+			if (errD == nil) != (o.errB == nil) || pD != o.pB || !bytes.Equal(normJSON(gd.GetState()), o.jB) {
+				if o.orderDiff == "" {
+					o.orderDiff = fmt.Sprintf("map order choices %v: %s", ch.Choices(), firstDiff(normJSON(gd.GetState()), o.jB))
+				}
+			}
+		})
+	}
 	// (c) the stateless table backend
 	in := fromJSON(j0)
 	keep := explore.DeepCopy(in)
@@ -170,6 +193,9 @@ func c07Judge(op Op, o *stepObs) [][2]string {
 	if o.inputChanged != "" {
 		add("backend-mutates-input:"+op.Kind, op.Label()+": "+o.inputChanged)
 	}
+	if o.orderDiff != "" {
+		add("depends-on-map-order:"+op.Kind, op.Label()+": the resulting state depends on the iteration order of a Go map (unspecified by the language): "+o.orderDiff)
+	}
 	return out
 }
 
@@ -209,7 +235,7 @@ func (r *c07run) explore(maxStates int) {
 	}
 	b := &explore.BFS[*c07node]{Workers: 1, MaxStates: maxStates, KeyOf: func(n *c07node) explore.Key { return explore.HashKey(n.key) }}
 	init := &c07node{hist: []Op{}, key: StateJSON(g0.GetState())}
-	var reloads, jdetChecks, replays int64
+	var reloads, jdetChecks, replays, orderRuns int64
 	b.Run([]*c07node{init}, func(nd explore.Node[*c07node], emit func(string, *c07node) (int32, bool)) {
 		n := nd.State
 		g, err := Replay(cfg, n.hist)
@@ -245,6 +271,7 @@ func (r *c07run) explore(maxStates int) {
 				r.rep.Broken = "C07: " + err.Error()
 				return
 			}
+			orderRuns += int64(o.orders)
 			bad := false
 			for _, sm := range c07Judge(op, o) {
 				bad = true
@@ -272,6 +299,7 @@ func (r *c07run) explore(maxStates int) {
 	r.rep.Add("genuine_replays", replays)
 	r.rep.Add("reload_transitions", reloads)
 	r.rep.Add("same_json_comparisons", jdetChecks)
+	r.rep.Add("map_order_executions", orderRuns)
 	r.rep.Add("configurations", 1)
 	r.rep.Max("max_depth", int64(b.MaxDepth))
 	if b.Capped != "" {
@@ -376,14 +404,21 @@ func C07Grid(tier string) []*Config {
 
 // RunC07 explores the extended (operations + reload) system of every configuration.
 func RunC07(rep *explore.Report, tier string) {
-	rep.Set("rule", "extended transition system (every operation of the alphabet + a Reload transition that rebuilds the game from its JSON) of every configuration; every transition performed three ways - on the genuine uninterrupted in-memory game (replayed from Start), on a game rebuilt from the JSON, and through table.NativeBackend - and compared; input immutability of the backend; CreateGame vs Start; determinism of replays; states with equal JSON must have equal futures; distinct_nontrivial = comparisons between extended states sharing a JSON document")
+	rep.Set("rule", "extended transition system (every operation of the alphabet + a Reload transition that rebuilds the game from its JSON) of every configuration; every transition performed three ways - on the genuine uninterrupted in-memory game (replayed from Start), on a game rebuilt from the JSON, and through table.NativeBackend - and compared; input immutability of the backend; CreateGame vs Start; determinism of replays and independence of the result from map iteration order (bounded deviations); states with equal JSON must have equal futures; distinct_nontrivial = comparisons between extended states sharing a JSON document")
 	cfgs := C07Grid(tier)
+	mapDev = 1
+	if tier == "thorough" {
+		mapDev = 2
+	}
+	rep.Set("map_order_deviation_bound_per_operation", int64(mapDev))
 	ch := make(chan *Config)
 	var wg sync.WaitGroup
 	for w := 0; w < numCPU(); w++ {
 		wg.Add(1)
 		go func() {
 			defer wg.Done()
+			runtime.LockOSThread() // map-order choosers are attached per OS thread
+			defer runtime.UnlockOSThread()
 			for c := range ch {
 				(&c07run{cfg: c, rep: rep}).explore(400000)
 			}
